@@ -2,7 +2,7 @@
    force with the language's matching whenever every pattern of the predicate has an exact shape and no stored string
    contains a separator byte. *)
 From Coq Require Import NArith List Bool Lia.
-From OG Require Import C10.Model C10.Proofs C10.Regex C10.RegexProofs.
+From OG Require Import C10.Model C10.Proofs C10.Regex C10.RegexProofs C10.RegexAlt.
 Import ListNotations.
 Open Scope N_scope.
 
